@@ -1,12 +1,14 @@
 package qcase
 
-// Shared exclusion predicates for the known, still open translation defects (C01, C02, C03).
+// Shared exclusion predicates for the known translation defects found by the result-comparing checks (C01, C02).
+// (C03's predicates live in findings_c03.go.)
 //
 // One entry per ROOT CAUSE (see /verif/harness/props/TRANSLATION_FINDINGS.md). A predicate is a narrow,
 // syntactic test over the parsed query (and, where the defect needs it, the graph): it must cover the shape
 // that reaches the root cause and as little else as possible; each says why it is not narrower. A check
-// consults a predicate only while the finding is listed as open for its property
-// (evid.R.KnownOpen("<property>-<slug>")); matching cases are counted as excluded, never evaluated.
+// consults a predicate only while the finding is listed as OPEN for its property
+// (evid.R.KnownOpen("<property>-<slug>")); matching cases are counted as excluded, never evaluated. A finding
+// that is listed as fixed switches nothing off.
 //
 // Append entries; do not rewrite entries of other checks.
 
@@ -296,12 +298,151 @@ func callsFunction(e any, name string) bool {
 	return found
 }
 
+func hasPatternPredicate(e any) bool {
+	found := false
+	Visit(e, func(n any) bool {
+		if _, ok := n.(*cypher.PatternPredicate); ok {
+			found = true
+		}
+		return !found
+	})
+	return found
+}
+
+func graphHasSelfLoop(c Case) bool {
+	for _, e := range c.Graph.Edges {
+		if e.Start == e.End {
+			return true
+		}
+	}
+	return false
+}
+
+func sameVariable(a, b *cypher.NodePattern) bool {
+	if a == nil || b == nil {
+		return false
+	}
+	va, vb := varName(a.Variable), varName(b.Variable)
+	return va != "" && va == vb
+}
+
+// everyRelPattern calls fn for every relationship pattern of the query, pattern predicates included, together
+// with its two neighbouring node patterns.
+func (s *Shape) everyRelPattern(fn func(left *cypher.NodePattern, rel *cypher.RelationshipPattern, right *cypher.NodePattern)) {
+	walkElements := func(els []*cypher.PatternElement) {
+		var lastNode *cypher.NodePattern
+		var pendingRel *cypher.RelationshipPattern
+		for _, el := range els {
+			if el == nil {
+				continue
+			}
+			if n, ok := el.AsNodePattern(); ok {
+				if pendingRel != nil {
+					fn(lastNode, pendingRel, n)
+					pendingRel = nil
+				}
+				lastNode = n
+			} else if r, ok := el.AsRelationshipPattern(); ok {
+				pendingRel = r
+			}
+		}
+	}
+	Visit(s.Model, func(n any) bool {
+		switch t := n.(type) {
+		case *cypher.PatternPart:
+			walkElements(t.PatternElements)
+		case *cypher.PatternPredicate:
+			walkElements(t.PatternElements)
+		}
+		return true
+	})
+}
+
+// walkParts walks the query in order and calls visit for every pattern part together with the set of variables
+// bound before that part starts (earlier clauses, earlier parts of the same MATCH; WITH narrows the scope).
+func (s *Shape) walkParts(visit func(m *MatchShape, partIndex int, ps *PatternShape, bound map[string]bool)) {
+	bound := map[string]bool{}
+	for _, p := range s.Parts {
+		mi := 0
+		for _, rc := range p.Clauses {
+			if rc == nil {
+				continue
+			}
+			if rc.Match != nil {
+				m := p.Matches[mi]
+				mi++
+				for i, ps := range m.Parts {
+					visit(m, i, ps, bound)
+					for _, n := range ps.Nodes {
+						if v := varName(n.Variable); v != "" {
+							bound[v] = true
+						}
+					}
+					for _, r := range ps.Rels {
+						if v := varName(r.Variable); v != "" {
+							bound[v] = true
+						}
+					}
+					if ps.Part != nil {
+						if v := varName(ps.Part.Variable); v != "" {
+							bound[v] = true
+						}
+					}
+				}
+			}
+			if rc.Unwind != nil {
+				if v := varName(rc.Unwind.Variable); v != "" {
+					bound[v] = true
+				}
+			}
+		}
+		if !p.IsReturn && p.Projection != nil {
+			next := map[string]bool{}
+			for _, it := range p.Projection.Items {
+				expr, alias := ItemExpr(it)
+				if alias != "" {
+					next[alias] = true
+				} else if v, ok := expr.(*cypher.Variable); ok && v != nil {
+					if v.Symbol == "*" {
+						for k := range bound {
+							next[k] = true
+						}
+					} else {
+						next[v.Symbol] = true
+					}
+				}
+			}
+			bound = next
+		}
+	}
+}
+
 // ---------------------------------------------------------------------------------------------------
-// The findings
+// The findings (root causes). Whether an entry is consulted depends on its status in known_findings.
 
 var Findings = []Finding{
 	{"agg-constant-key-empty", AggConstantKeyOnly},
 	{"sum-empty-null", SumAggregate},
+	{"with-order-skip-limit-dropped", WithOrderSkipLimit},
+	{"restated-bound-node-cross-join", RestatedBoundNodeOnlyPattern},
+	{"undirected-step-drops-self-loops", UndirectedStepOnSelfLoopGraph},
+	{"undirected-step-same-variable", UndirectedStepSameVariable},
+	{"undirected-continuation-step", UndirectedContinuationStep},
+	{"rel-uniqueness-across-pattern-parts", RelationshipsInSeveralPatternParts},
+	{"rel-uniqueness-between-expansions", TwoExpansionsInOnePart},
+	{"optional-match-multi-frame", OptionalMatchSeveralFrames},
+	{"optional-match-duplicate-origin-rows", OptionalMatchAfterDuplicableRows},
+	{"expansion-into-bound-node-same-part", ExpansionClosingOnEarlierNodeOfPart},
+	{"expansion-first-hop-self-loop", ExpansionOnSelfLoopGraph},
+	{"expansion-seed-filter-not-applied-to-rows", ExpansionFromBoundNodeWithForeignPredicate},
+	{"continuation-step-rejoins-bound-node", ExactRangeIntoBoundNode},
+	{"collect-property-as-text", CollectOfNonStringProperty},
+	{"with-constants-only-loses-rows", WithOnlyConstants},
+	{"with-where-moves-into-optional-match", WithWhereBeforeOptionalMatch},
+	{"labels-predicate-floats-to-final-select", LabelsPredicateBeforeBoundary},
+	{"xor-operands-lose-grouping", XorWithCompoundOperand},
+	{"path-function-on-null-path", PathFunctionOnOptionalPath},
+	{"labels-of-null-node", LabelsOfOptionalNode},
 }
 
 // AggConstantKeyOnly: an aggregating WITH/RETURN whose grouping items read no variable (literals, parameters,
@@ -359,23 +500,6 @@ func SumAggregate(q *Shape) bool {
 	return callsFunction(q.Model, "sum")
 }
 
-// ---------------------------------------------------------------------------------------------------
-// more root causes (C01 triage)
-
-func init() {
-	Findings = append(Findings,
-		Finding{"with-order-skip-limit-dropped", WithOrderSkipLimit},
-		Finding{"restated-bound-node-cross-join", RestatedBoundNodeOnlyPattern},
-		Finding{"undirected-step-drops-self-loops", UndirectedStepOnSelfLoopGraph},
-		Finding{"undirected-step-same-variable", UndirectedStepSameVariable},
-		Finding{"rel-uniqueness-across-pattern-parts", RelationshipsInSeveralPatternParts},
-		Finding{"optional-match-multi-frame", OptionalMatchSeveralFrames},
-		Finding{"optional-match-duplicate-origin-rows", OptionalMatchAfterDuplicableRows},
-		Finding{"expansion-into-bound-node-same-part", ExpansionClosingOnEarlierNodeOfPart},
-		Finding{"collect-property-as-text", CollectOfNonStringProperty},
-	)
-}
-
 // WithOrderSkipLimit: a WITH that carries ORDER BY, SKIP or LIMIT. buildMultiPartQuery (translate/query.go) copies
 // only the inline projection into the nested CTE; the part's Skip / Limit / SortItems are never attached.
 func WithOrderSkipLimit(q *Shape) bool {
@@ -385,66 +509,6 @@ func WithOrderSkipLimit(q *Shape) bool {
 		}
 	}
 	return false
-}
-
-// boundBefore walks the query in order and calls visit for every pattern part together with the set of variables
-// bound before that part starts (earlier clauses, earlier parts of the same MATCH; WITH narrows the scope).
-func (s *Shape) walkParts(visit func(m *MatchShape, partIndex int, ps *PatternShape, bound map[string]bool)) {
-	bound := map[string]bool{}
-	for _, p := range s.Parts {
-		mi, ui := 0, 0
-		for _, rc := range p.Clauses {
-			if rc == nil {
-				continue
-			}
-			if rc.Match != nil {
-				m := p.Matches[mi]
-				mi++
-				for i, ps := range m.Parts {
-					visit(m, i, ps, bound)
-					for _, n := range ps.Nodes {
-						if v := varName(n.Variable); v != "" {
-							bound[v] = true
-						}
-					}
-					for _, r := range ps.Rels {
-						if v := varName(r.Variable); v != "" {
-							bound[v] = true
-						}
-					}
-					if ps.Part != nil {
-						if v := varName(ps.Part.Variable); v != "" {
-							bound[v] = true
-						}
-					}
-				}
-			}
-			if rc.Unwind != nil {
-				ui++
-				if v := varName(rc.Unwind.Variable); v != "" {
-					bound[v] = true
-				}
-			}
-		}
-		if !p.IsReturn && p.Projection != nil {
-			next := map[string]bool{}
-			for _, it := range p.Projection.Items {
-				expr, alias := ItemExpr(it)
-				if alias != "" {
-					next[alias] = true
-				} else if v, ok := expr.(*cypher.Variable); ok && v != nil {
-					if v.Symbol == "*" {
-						for k := range bound {
-							next[k] = true
-						}
-					} else {
-						next[v.Symbol] = true
-					}
-				}
-			}
-			bound = next
-		}
-	}
 }
 
 // RestatedBoundNodeOnlyPattern: a node-only pattern part whose variable is already bound - MATCH (n), (n) or
@@ -460,47 +524,6 @@ func RestatedBoundNodeOnlyPattern(q *Shape) bool {
 		}
 	})
 	return found
-}
-
-func graphHasSelfLoop(c Case) bool {
-	for _, e := range c.Graph.Edges {
-		if e.Start == e.End {
-			return true
-		}
-	}
-	return false
-}
-
-// everyRelPattern calls fn for every relationship pattern of the query, pattern predicates included, together
-// with its two neighbouring node patterns.
-func (s *Shape) everyRelPattern(fn func(left *cypher.NodePattern, rel *cypher.RelationshipPattern, right *cypher.NodePattern)) {
-	walkElements := func(els []*cypher.PatternElement) {
-		var lastNode *cypher.NodePattern
-		var pendingRel *cypher.RelationshipPattern
-		for _, el := range els {
-			if el == nil {
-				continue
-			}
-			if n, ok := el.AsNodePattern(); ok {
-				if pendingRel != nil {
-					fn(lastNode, pendingRel, n)
-					pendingRel = nil
-				}
-				lastNode = n
-			} else if r, ok := el.AsRelationshipPattern(); ok {
-				pendingRel = r
-			}
-		}
-	}
-	Visit(s.Model, func(n any) bool {
-		switch t := n.(type) {
-		case *cypher.PatternPart:
-			walkElements(t.PatternElements)
-		case *cypher.PatternPredicate:
-			walkElements(t.PatternElements)
-		}
-		return true
-	})
 }
 
 // UndirectedStepOnSelfLoopGraph: an undirected, fixed-length relationship step between two different variables
@@ -521,14 +544,6 @@ func UndirectedStepOnSelfLoopGraph(q *Shape) bool {
 	return found
 }
 
-func sameVariable(a, b *cypher.NodePattern) bool {
-	if a == nil || b == nil {
-		return false
-	}
-	va, vb := varName(a.Variable), varName(b.Variable)
-	return va != "" && va == vb
-}
-
 // UndirectedStepSameVariable: (n)-[r]-(n). Both endpoint conditions are "n.id = start_id or n.id = end_id", which
 // every edge incident to n satisfies; nothing requires start_id = end_id
 // (translate/traversal_directionless.go buildSelfReferentialDirectionlessTraversalRoot and the bound-node step).
@@ -538,6 +553,33 @@ func UndirectedStepSameVariable(q *Shape) bool {
 		if isUndirected(r) && sameVariable(l, rt) {
 			found = true
 		}
+	})
+	return found
+}
+
+// UndirectedContinuationStep: an undirected fixed-length step that is not the first step of its pattern part,
+// e.g. (a)-[:R]->(b)-[r]-(c). buildTraversalPatternStep (translate/traversal.go) joins the edge on "b is either
+// endpoint" and the new node on "c is either endpoint" with nothing that makes c the OTHER endpoint, so every
+// incident edge also yields c = b.
+func UndirectedContinuationStep(q *Shape) bool {
+	found := false
+	check := func(ps *PatternShape) {
+		for i, r := range ps.Rels {
+			if i > 0 && isUndirected(r) && !IsVarLength(r) {
+				found = true
+			}
+		}
+	}
+	for _, m := range q.AllMatches() {
+		for _, ps := range m.Parts {
+			check(ps)
+		}
+	}
+	Visit(q.Model, func(n any) bool {
+		if pp, ok := n.(*cypher.PatternPredicate); ok && pp != nil {
+			check(patternShape(&cypher.PatternPart{PatternElements: pp.PatternElements}))
+		}
+		return true
 	})
 	return found
 }
@@ -561,10 +603,30 @@ func RelationshipsInSeveralPatternParts(q *Shape) bool {
 	return false
 }
 
+// TwoExpansionsInOnePart: a pattern part with two variable-length steps. expansionPreviousRelationshipUniquenessConstraint
+// (translate/traversal.go) compares an expansion's path with the preceding FIXED steps only and skips preceding
+// expansions, so both expansions may traverse the same relationship.
+func TwoExpansionsInOnePart(q *Shape) bool {
+	for _, m := range q.AllMatches() {
+		for _, ps := range m.Parts {
+			n := 0
+			for _, r := range ps.Rels {
+				if IsVarLength(r) {
+					n++
+				}
+			}
+			if n >= 2 {
+				return true
+			}
+		}
+	}
+	return false
+}
+
 // OptionalMatchSeveralFrames: a (non-leading) OPTIONAL MATCH whose pattern is translated into more than one
-// frame - two or more relationship steps in a part, or two or more pattern parts. buildOptionalMatchAggregationStep
-// (translate/match.go) left-joins aggregationFrame.Previous (the LAST frame of the pattern) to the frame before it,
-// so only the last step is optional.
+// frame - two or more relationship steps in a part, or two or more pattern parts, or a pattern predicate in its
+// WHERE. buildOptionalMatchAggregationStep (translate/match.go) left-joins aggregationFrame.Previous (the LAST
+// frame of the pattern) to the frame before it, so only the last step is optional.
 func OptionalMatchSeveralFrames(q *Shape) bool {
 	for _, m := range q.AllMatches() {
 		if m.Match == nil || !m.Match.Optional || m.Index == 0 {
@@ -585,66 +647,77 @@ func OptionalMatchSeveralFrames(q *Shape) bool {
 	return false
 }
 
-func hasPatternPredicate(e any) bool {
-	found := false
-	Visit(e, func(n any) bool {
-		if _, ok := n.(*cypher.PatternPredicate); ok {
-			found = true
-		}
-		return !found
-	})
-	return found
-}
-
-// OptionalMatchAfterDuplicableRows: a (non-leading) OPTIONAL MATCH whose incoming rows can repeat: an earlier
-// pattern with an anonymous node or relationship or a variable-length relationship (their bindings are not
-// exported by the frame), an UNWIND, or a WITH. The optional frame is joined back to the origin frame on equality
-// of the origin's exported columns (translate/match.go buildOptionalMatchAggregationStep); equal origin rows each
-// pick up the other's matches, so n equal rows with k matches give n*n*k rows instead of n*k.
-// Not narrower: whether two incoming rows are equal depends on the graph.
+// OptionalMatchAfterDuplicableRows: a (non-leading) OPTIONAL MATCH whose incoming rows can repeat. The optional frame
+// is joined back to the origin frame on equality of the origin's exported columns (translate/match.go
+// buildOptionalMatchAggregationStep); equal origin rows each pick up the other's matches, so n equal rows with k
+// matches give n*n*k rows instead of n*k. Incoming rows can repeat when an earlier pattern element is not exported by
+// the origin frame - it is anonymous, variable-length, or a variable that nothing from the OPTIONAL MATCH on
+// references (such bindings are pruned from the frames) - or when an UNWIND or a WITH precedes.
+// Not narrower: whether two incoming rows really are equal depends on the graph.
 func OptionalMatchAfterDuplicableRows(q *Shape) bool {
-	duplicable := false
-	found := false
-	for _, p := range q.Parts {
+	for pi, p := range q.Parts {
 		mi := 0
-		for _, rc := range p.Clauses {
-			if rc == nil {
+		for ci, rc := range p.Clauses {
+			if rc == nil || rc.Match == nil {
 				continue
 			}
-			if rc.Unwind != nil {
-				duplicable = true
+			m := p.Matches[mi]
+			mi++
+			if !rc.Match.Optional || m.Index == 0 {
+				continue
 			}
-			if rc.Match != nil {
-				m := p.Matches[mi]
-				mi++
-				if rc.Match.Optional && m.Index > 0 && duplicable {
-					found = true
+			if pi > 0 {
+				return true // rows come out of a WITH
+			}
+			// names referenced from this clause on, within the part
+			referenced := map[string]bool{}
+			note := func(n any) bool {
+				if v, ok := n.(*cypher.Variable); ok && v != nil {
+					referenced[v.Symbol] = true
 				}
-				for _, ps := range m.Parts {
+				return true
+			}
+			for _, later := range p.Clauses[ci:] {
+				Visit(later, note)
+			}
+			Visit(p.Projection, note)
+			Visit(p.Where, note)
+			if referenced["*"] {
+				continue
+			}
+			for _, earlier := range p.Clauses[:ci] {
+				if earlier == nil {
+					continue
+				}
+				if earlier.Unwind != nil {
+					return true
+				}
+				if earlier.Match == nil {
+					continue
+				}
+				for _, pp := range earlier.Match.Pattern {
+					ps := patternShape(pp)
 					for _, n := range ps.Nodes {
-						if varName(n.Variable) == "" {
-							duplicable = true
+						if v := varName(n.Variable); v == "" || !referenced[v] {
+							return true
 						}
 					}
 					for _, r := range ps.Rels {
-						if varName(r.Variable) == "" || IsVarLength(r) {
-							duplicable = true
+						if v := varName(r.Variable); v == "" || !referenced[v] || IsVarLength(r) {
+							return true
 						}
 					}
 				}
 			}
 		}
-		if !p.IsReturn {
-			duplicable = true
-		}
 	}
-	return found
+	return false
 }
 
 // ExpansionClosingOnEarlierNodeOfPart: a variable-length step that is not the first step of its pattern part and
 // whose right node restates a variable bound earlier in the same part, e.g. (a)-[:R]->(b)-[*]->(a). The
 // expansion step re-selects the terminal node by next_id and never compares it with the bound node
-// (translate/expansion.go buildExpansionPatternStep).
+// (translate/expansion.go buildExpansionPatternStep; the root builder has the gate).
 func ExpansionClosingOnEarlierNodeOfPart(q *Shape) bool {
 	for _, m := range q.AllMatches() {
 		for _, ps := range m.Parts {
@@ -665,6 +738,88 @@ func ExpansionClosingOnEarlierNodeOfPart(q *Shape) bool {
 		}
 	}
 	return false
+}
+
+// ExpansionOnSelfLoopGraph: a variable-length relationship on a graph with a self loop. The recursive CTE marks
+// a first hop over a self loop as is_cycle and never extends it ("... and not sN.is_cycle", translate/expansion.go
+// expansionConstraints), although the trail [loop, next edge] is a legitimate match; relationship uniqueness is
+// already enforced through the path array. Uses the graph: is_cycle is only ever true for a self-loop first hop.
+func ExpansionOnSelfLoopGraph(q *Shape) bool {
+	if !graphHasSelfLoop(q.Case) {
+		return false
+	}
+	found := false
+	q.everyRelPattern(func(l *cypher.NodePattern, r *cypher.RelationshipPattern, rt *cypher.NodePattern) {
+		if IsVarLength(r) {
+			found = true
+		}
+	})
+	return found
+}
+
+// ExpansionFromBoundNodeWithForeignPredicate: a MATCH whose pattern part STARTS with a variable-length step from an
+// already bound node and whose WHERE reads another already bound variable, e.g.
+// MATCH (a)-[r]->() MATCH (a)-[*]->(b) WHERE r.x = 1. The predicate is placed in the expansion's seed
+// (select distinct root ids from the previous frame where ...), which picks the roots, but the projection joins
+// every row of the previous frame that has such a root, also the rows that fail the predicate
+// (translate/expansion.go buildExpansionPatternRoot).
+// Not narrower: which conjuncts land in the seed is decided by the constraint tracker.
+func ExpansionFromBoundNodeWithForeignPredicate(q *Shape) bool {
+	found := false
+	q.walkParts(func(m *MatchShape, i int, ps *PatternShape, bound map[string]bool) {
+		if found || m.Match == nil || m.Match.Where == nil || len(ps.Rels) == 0 || !IsVarLength(ps.Rels[0]) {
+			return
+		}
+		root := varName(ps.Nodes[0].Variable)
+		if len(ps.Nodes) > 1 && IsVarLength(ps.Rels[0]) {
+			// the optimiser may drive the expansion from either end
+			if other := varName(ps.Nodes[1].Variable); root == "" || !bound[root] {
+				root = other
+			}
+		}
+		if root == "" || !bound[root] {
+			return
+		}
+		Visit(m.Match.Where, func(n any) bool {
+			if v, ok := n.(*cypher.Variable); ok && v != nil && v.Symbol != root && bound[v.Symbol] {
+				found = true
+			}
+			return !found
+		})
+	})
+	return found
+}
+
+// ExactRangeIntoBoundNode: an exact range (*1, *1..1, *2, *2..2) whose right node restates a bound variable (bound
+// earlier, or the left node of the same step). The exact-range lowering turns the range into fixed steps; a step
+// whose endpoints are both carried by the previous frame reaches buildTraversalPatternRoot / buildTraversalPatternStep
+// (translate/traversal.go) without an expand-into decision and joins the node table on a condition that only
+// references the previous frame, multiplying every row by the number of nodes.
+func ExactRangeIntoBoundNode(q *Shape) bool {
+	found := false
+	q.walkParts(func(m *MatchShape, i int, ps *PatternShape, bound map[string]bool) {
+		for k, r := range ps.Rels {
+			if !IsVarLength(r) || r.Range.StartIndex == nil || r.Range.EndIndex == nil || k+1 >= len(ps.Nodes) {
+				continue
+			}
+			if *r.Range.StartIndex != *r.Range.EndIndex || *r.Range.StartIndex < 1 {
+				continue
+			}
+			right := varName(ps.Nodes[k+1].Variable)
+			if right == "" {
+				continue
+			}
+			if bound[right] {
+				found = true
+			}
+			for _, earlier := range ps.Nodes[:k+1] {
+				if varName(earlier.Variable) == right {
+					found = true
+				}
+			}
+		}
+	})
+	return found
 }
 
 // CollectOfNonStringProperty: collect(x.key) where some entity of the graph stores a non-string value under key.
@@ -706,86 +861,7 @@ func CollectOfNonStringProperty(q *Shape) bool {
 	return false
 }
 
-func init() {
-	Findings = append(Findings,
-		Finding{"undirected-continuation-step", UndirectedContinuationStep},
-		Finding{"expansion-first-hop-self-loop", ExpansionOnSelfLoopGraph},
-		Finding{"rel-uniqueness-between-expansions", TwoExpansionsInOnePart},
-	)
-}
-
-// UndirectedContinuationStep: an undirected fixed-length step that is not the first step of its pattern part,
-// e.g. (a)-[:R]->(b)-[r]-(c). buildTraversalPatternStep (translate/traversal.go) joins the edge on "b is either
-// endpoint" and the new node on "c is either endpoint" with nothing that makes c the OTHER endpoint, so every
-// incident edge also yields c = b.
-func UndirectedContinuationStep(q *Shape) bool {
-	found := false
-	check := func(ps *PatternShape) {
-		for i, r := range ps.Rels {
-			if i > 0 && isUndirected(r) && !IsVarLength(r) {
-				found = true
-			}
-		}
-	}
-	for _, m := range q.AllMatches() {
-		for _, ps := range m.Parts {
-			check(ps)
-		}
-	}
-	Visit(q.Model, func(n any) bool {
-		if pp, ok := n.(*cypher.PatternPredicate); ok && pp != nil {
-			check(patternShape(&cypher.PatternPart{PatternElements: pp.PatternElements}))
-		}
-		return true
-	})
-	return found
-}
-
-// ExpansionOnSelfLoopGraph: a variable-length relationship on a graph with a self loop. The recursive CTE marks
-// a first hop over a self loop as is_cycle and never extends it ("... and not sN.is_cycle", translate/expansion.go
-// expansionConstraints), although the trail [loop, next edge] is a legitimate match; relationship uniqueness is
-// already enforced through the path array. Uses the graph: is_cycle is only ever true for a self-loop first hop.
-func ExpansionOnSelfLoopGraph(q *Shape) bool {
-	if !graphHasSelfLoop(q.Case) {
-		return false
-	}
-	found := false
-	q.everyRelPattern(func(l *cypher.NodePattern, r *cypher.RelationshipPattern, rt *cypher.NodePattern) {
-		if IsVarLength(r) {
-			found = true
-		}
-	})
-	return found
-}
-
-// TwoExpansionsInOnePart: a pattern part with two variable-length steps. expansionPreviousRelationshipUniquenessConstraint
-// (translate/traversal.go) compares an expansion's path with the preceding FIXED steps only and skips preceding
-// expansions, so both expansions may traverse the same relationship.
-func TwoExpansionsInOnePart(q *Shape) bool {
-	for _, m := range q.AllMatches() {
-		for _, ps := range m.Parts {
-			n := 0
-			for _, r := range ps.Rels {
-				if IsVarLength(r) {
-					n++
-				}
-			}
-			if n >= 2 {
-				return true
-			}
-		}
-	}
-	return false
-}
-
-func init() {
-	Findings = append(Findings,
-		Finding{"with-constants-only-loses-rows", WithOnlyConstants},
-		Finding{"with-where-moves-into-optional-match", WithWhereBeforeOptionalMatch},
-	)
-}
-
-// WithOnlyConstants: a WITH none of whose items reads a variable (WITH 1 AS x, WITH 'a' AS k, count(*) AS c is not
+// WithOnlyConstants: a WITH none of whose items reads a variable (WITH 1 AS x; WITH 'a' AS k, count(*) AS c is not
 // meant: aggregates read their input). buildInlineProjection (translate/projection.go) gives the nested select a
 // FROM only when some item references a binding, so the WITH yields exactly one row whatever came in.
 func WithOnlyConstants(q *Shape) bool {
@@ -839,20 +915,140 @@ func WithWhereBeforeOptionalMatch(q *Shape) bool {
 	return false
 }
 
-func init() {
-	Findings = append(Findings,
-		Finding{"optional-match-labels-predicate-after-join", OptionalMatchWhereLabels},
-	)
-}
-
-// OptionalMatchWhereLabels: a (non-leading) OPTIONAL MATCH whose WHERE calls labels(). The labels() translation is a
-// sub-select over the kind table; the constraint is not consumed by any frame of the optional pattern and ends up in
-// the WHERE of the final projection, i.e. after the outer join, where it removes the null-extended rows.
-func OptionalMatchWhereLabels(q *Shape) bool {
-	for _, m := range q.AllMatches() {
-		if m.Match != nil && m.Match.Optional && m.Index > 0 && m.Match.Where != nil && callsFunction(m.Match.Where, "labels") {
-			return true
+// LabelsPredicateBeforeBoundary: a WHERE that calls labels() and is followed by something that must see the
+// filtered rows: it belongs to a (non-leading) OPTIONAL MATCH, or a later OPTIONAL MATCH / WITH follows. The
+// labels() translation is a sub-select whose local aliases (_kind, _kind_idx, table kind) are taken for query
+// bindings by ExtractSyntaxNodeReferences (translate/expression.go), so no frame ever satisfies the constraint's
+// dependencies and it is emitted in the WHERE of the final select: after the outer join of an OPTIONAL MATCH, after
+// LIMIT / aggregation of a WITH.
+func LabelsPredicateBeforeBoundary(q *Shape) bool {
+	for pi, p := range q.Parts {
+		mi := 0
+		for ci, rc := range p.Clauses {
+			if rc == nil || rc.Match == nil {
+				continue
+			}
+			m := p.Matches[mi]
+			mi++
+			if rc.Match.Where == nil || !callsFunction(rc.Match.Where, "labels") {
+				continue
+			}
+			if rc.Match.Optional && m.Index > 0 {
+				return true
+			}
+			if !p.IsReturn || pi+1 < len(q.Parts) {
+				return true // a WITH follows
+			}
+			for _, later := range p.Clauses[ci+1:] {
+				if later != nil && later.Match != nil && later.Match.Optional {
+					return true
+				}
+			}
+		}
+		if p.Where != nil && callsFunction(p.Where, "labels") && pi+1 < len(q.Parts) {
+			next := q.Parts[pi+1]
+			if !next.IsReturn {
+				return true
+			}
+			for _, rc := range next.Clauses {
+				if rc != nil && rc.Match != nil && rc.Match.Optional {
+					return true
+				}
+			}
 		}
 	}
 	return false
+}
+
+// XorWithCompoundOperand: an XOR one of whose operands is a conjunction / disjunction / negation / comparison.
+// XOR is emitted as "!=" without parenthesising the operands (translate/translator.go, case
+// *cypher.ExclusiveDisjunction); "!=" binds tighter than AND / OR / NOT in PostgreSQL, so "a AND b XOR c AND d" is
+// regrouped (comparison operands are a syntax error instead: C03).
+func XorWithCompoundOperand(q *Shape) bool {
+	found := false
+	Visit(q.Model, func(n any) bool {
+		x, ok := n.(*cypher.ExclusiveDisjunction)
+		if !ok || x == nil {
+			return true
+		}
+		for _, operand := range x.GetAll() {
+			switch operand.(type) {
+			case *cypher.Conjunction, *cypher.Disjunction, *cypher.Negation, *cypher.Comparison, *cypher.ExclusiveDisjunction:
+				found = true
+			}
+		}
+		return !found
+	})
+	return found
+}
+
+// PathFunctionOnOptionalPath: relationships(p) / nodes(p) where p is bound by a (non-leading) OPTIONAL MATCH. When
+// only the path's components are needed the translator builds them from the step columns (array [sN.e0]) without
+// the all-null guard that the path value itself gets, so an unmatched OPTIONAL MATCH yields [null] instead of null.
+func PathFunctionOnOptionalPath(q *Shape) bool {
+	optionalPaths := map[string]bool{}
+	for _, m := range q.AllMatches() {
+		if m.Match == nil || !m.Match.Optional || m.Index == 0 {
+			continue
+		}
+		for _, ps := range m.Parts {
+			if ps.Part != nil {
+				if v := varName(ps.Part.Variable); v != "" {
+					optionalPaths[v] = true
+				}
+			}
+		}
+	}
+	if len(optionalPaths) == 0 {
+		return false
+	}
+	found := false
+	Visit(q.Model, func(n any) bool {
+		f, ok := n.(*cypher.FunctionInvocation)
+		if !ok || f == nil || len(f.Arguments) != 1 {
+			return true
+		}
+		if name := strings.ToLower(f.Name); name != "relationships" && name != "nodes" {
+			return true
+		}
+		if v, ok := f.Arguments[0].(*cypher.Variable); ok && v != nil && optionalPaths[v.Symbol] {
+			found = true
+		}
+		return !found
+	})
+	return found
+}
+
+// LabelsOfOptionalNode: labels(v) outside a WHERE, where v is introduced by a (non-leading) OPTIONAL MATCH. The
+// labels() sub-select over the kind ids of a null node is the empty array, where openCypher's labels(null) is null
+// (translate/function.go translateNodeLabelsExpression has no null guard).
+func LabelsOfOptionalNode(q *Shape) bool {
+	optional := map[string]bool{}
+	q.walkParts(func(m *MatchShape, i int, ps *PatternShape, bound map[string]bool) {
+		if m.Match == nil || !m.Match.Optional || m.Index == 0 {
+			return
+		}
+		for _, n := range ps.Nodes {
+			if v := varName(n.Variable); v != "" && !bound[v] {
+				optional[v] = true
+			}
+		}
+	})
+	if len(optional) == 0 {
+		return false
+	}
+	found := false
+	for _, p := range q.Parts {
+		Visit(p.Projection, func(n any) bool {
+			f, ok := n.(*cypher.FunctionInvocation)
+			if !ok || f == nil || !strings.EqualFold(f.Name, "labels") || len(f.Arguments) != 1 {
+				return true
+			}
+			if v, ok := f.Arguments[0].(*cypher.Variable); ok && v != nil && optional[v.Symbol] {
+				found = true
+			}
+			return !found
+		})
+	}
+	return found
 }
